@@ -1454,7 +1454,7 @@ func sameNumberRule(p *Program, r *Reporter, h *ssa.Function) {
 // calls Unlock explicitly (Inc releases the mutex by a deferred Unlock at its end). A helper that unlocks
 // for a slow operation and locks again lets other requests in between the elapsed test and the reset.
 func noReopenRule(p *Program, r *Reporter, inc *ssa.Function) {
-	r.Rule("E2-NOREOPEN", "no explicit Unlock of the limiter's mutex in the methods reachable from Inc", 1)
+	r.Rule("E2-NOREOPEN", "no method reachable from Inc releases the limiter's mutex and takes it again", 1)
 	n := 0
 	for fn := range staticReach(p, inc) {
 		if fn.Signature.Recv() == nil || !strings.Contains(fn.Signature.Recv().Type().String(), "IPRequestLimiter") {
@@ -1462,20 +1462,43 @@ func noReopenRule(p *Program, r *Reporter, inc *ssa.Function) {
 		}
 		n++
 		bad := ""
+		isMu := func(cc *ssa.CallCommon, names ...string) bool {
+			if cc.StaticCallee() == nil {
+				return false
+			}
+			for _, nme := range names {
+				if cc.StaticCallee().String() == nme {
+					return true
+				}
+			}
+			return false
+		}
+		ff := factsOf(fn)
 		for _, b := range fn.Blocks {
-			for _, in := range b.Instrs {
+			for ui, in := range b.Instrs {
 				c, ok := in.(*ssa.Call)
-				if !ok || c.Call.StaticCallee() == nil {
+				if !ok || !isMu(&c.Call, "(*sync.Mutex).Unlock", "(*sync.RWMutex).Unlock", "(*sync.RWMutex).RUnlock") {
 					continue
 				}
-				switch c.Call.StaticCallee().String() {
-				case "(*sync.Mutex).Unlock", "(*sync.RWMutex).Unlock", "(*sync.RWMutex).RUnlock":
-					bad = p.pos(c.Pos())
+				// is the mutex taken again after this release (a later Lock, or a deferred Lock that runs at exit)?
+				for _, b2 := range fn.Blocks {
+					for li, in2 := range b2.Instrs {
+						relock := false
+						switch x := in2.(type) {
+						case *ssa.Call:
+							relock = isMu(&x.Call, "(*sync.Mutex).Lock", "(*sync.RWMutex).Lock", "(*sync.RWMutex).RLock") && ((b2 == b && li > ui) || (b2 != b && ff.blockReaches(b, b2)))
+						case *ssa.Defer:
+							relock = isMu(&x.Call, "(*sync.Mutex).Lock", "(*sync.RWMutex).Lock", "(*sync.RWMutex).RLock")
+						}
+						if relock {
+							bad = p.pos(c.Pos())
+						}
+					}
 				}
 			}
 		}
-		r.Decide(bad == "", "E2-NOREOPEN", shortFn(fn), "explicit-unlock", p.pos(fn.Pos()), "the mutex is released only by the deferred Unlock",
-			"the mutex is unlocked explicitly at "+bad+" inside the section that counts, compares and resets: other requests run in between and their counts are wiped by the reset", nil)
+		r.Decide(bad == "", "E2-NOREOPEN", shortFn(fn), "explicit-unlock", p.pos(fn.Pos()), "the mutex is not released and re-acquired",
+			"the mutex is released at "+bad+" and taken again afterwards inside the section that counts, compares and resets: other requests run in between and their counts are wiped by the reset", nil)
 	}
 	if n == 0 {
 		r.Broken("no limiter method reachable from Inc")
